@@ -1,4 +1,5 @@
 import functools
+import os
 from tempfile import SpooledTemporaryFile
 from typing import (
     Any,
@@ -101,6 +102,24 @@ class NextResponse(StreamingResponse):
                 )
             elif message["type"] == "http.response.body":
                 await body.push(message.get("body", b""))
+                if not message.get("more_body", False):
+                    await body.push_eof()
+            elif message["type"] == "http.response.zerocopysend":
+                # The inner application sees the server's zero-copy send extension
+                # in the scope. What it hands over belongs to the body as well.
+                file, count = message["file"], message.get("count")
+                if message.get("offset") is not None:
+                    await run_in_threadpool(
+                        os.lseek, file, message["offset"], os.SEEK_SET
+                    )
+                while count is None or count > 0:
+                    size = 4096 * 16 if count is None else min(count, 4096 * 16)
+                    chunk = await run_in_threadpool(os.read, file, size)
+                    if not chunk:
+                        break
+                    await body.push(chunk)
+                    if count is not None:
+                        count -= len(chunk)
                 if not message.get("more_body", False):
                     await body.push_eof()
 
